@@ -639,7 +639,7 @@ def cases(tier, seed):
             k += 1
             yield from emit(cfg(n, (8, 2)[k % 2], 1 + k % 2, a, b, bool(k % 2)), 'bfcn' + ('tpv' if big else ''))
     # (c) scale of the objective (relative criteria), the zero objective
-    for sc in (1e-8, 1e8, 0.0) + ((1e-4, 1e4, 1e-30, 1e30) if big else ()):
+    for sc in (1e-12, 1e8, 0.0) + ((1e-8, 1e-4, 1e4, 1e-30, 1e30) if big else ()):
         for n in some:
             k += 1
             yield from emit(cfg(n, (8, 2)[k % 2], 2, 1, 1 + k % 2, bool(k % 2), {'scale': sc}),
